@@ -70,14 +70,15 @@ fn available_for_bnb_after_reservations(
     // Reservation is tracked across all same-day lots for this date+ticker,
     // so interleaved buys cannot over-reserve.
     let reservation_key = (tx.date, tx.ticker.clone());
-    let reservation_remaining = same_day_reservations
+    let same_day_disposals = same_day_reservations
         .entry(reservation_key)
         .or_insert_with(|| same_day_disposal_quantity(tx.date, &tx.ticker, all_transactions));
 
-    let reserve_now = available_before_same_day.min((*reservation_remaining).max(Decimal::ZERO));
-    *reservation_remaining -= reserve_now;
+    // The reservation belongs to the acquisition, not to whichever earlier disposal
+    // looks at it first: every B&B claimant sees the same reserved quantity.
+    let reserved_for_same_day = buy_amount.min((*same_day_disposals).max(Decimal::ZERO));
 
-    available_before_same_day - reserve_now
+    (available_before_same_day - reserved_for_same_day).max(Decimal::ZERO)
 }
 
 fn matched_buy_cost(
